@@ -37,7 +37,7 @@ def run(ctx):
                  ("C05-R4", "who may call the purge")]:
         ctx.rule(r, t)
     for cfg in configs(ctx.tier):
-        facts = ctx.facts(cfg)
+        facts = ctx.xfacts(cfg)
         r1(ctx, facts)
         r2(ctx, facts)
         r3(ctx, facts)
@@ -72,6 +72,12 @@ def r1(ctx, facts):
             ctx.ob("C05-R1", "%s creates %s" % (b.path, x), ok, b.loc(bb),
                    "" if ok else "a %s can be put into the world here without being registered in the MetaTable<dyn AnyStorage> "
                    "(registrations in this body: %s; path %s): deleting an entity would leave its component behind" % (x, others, b.fmt_path(wit)))
+            # the registration must not depend on the storage being new: a storage that is already in the world (inserted as a
+            # plain resource) is only made known to the purge by this very call
+            ok2, wit2 = b.must_pass(0, regs) if regs else (False, None)
+            ctx.ob("C05-R1", "%s registers %s whether or not it had to create it" % (b.path, x), ok2, b.loc(bb),
+                   "" if ok2 else "this body can return without registering %s in the MetaTable<dyn AnyStorage> (path %s): a storage that already "
+                   "exists in the world stays unknown to delete_components" % (x, b.fmt_path(wit2)))
     ctx.floor("C05-R1", "bodies creating a MaskedStorage in the world", n, 3)
     # the table itself is inserted by WorldExt::new
     new = [b for b in facts.bodies if b.trait_item == "world::world_ext::WorldExt::new"]
@@ -140,18 +146,19 @@ def r2(ctx, facts):
                 if not e:
                     continue
                 tgt = e[1]
-                # sites reachable only through this edge
-                other = {x for n, x in ve["edges"].items() if n not in (edge_name, "_otherwise") and x != e}
-                mine = [(bb, t) for bb, t in dcs if bb in b.reachable(tgt) and bb not in b.reachable(0, removed={e})]
-                ok, wit = b.must_pass(tgt, [bb for bb, _ in mine])
+                # what happens on the paths that leave the match on kill()'s result through this arm: delete the other arms
+                v = b.without_edges({x for n, x in ve["edges"].items() if x != e})
+                live = v.reachable(tgt)
+                mine = [(bb, t) for bb, t in dcs if bb in live]
+                ok, wit = v.must_pass(tgt, [bb for bb, _ in mine])
                 ctx.ob("C05-R2", "delete_entities %s-edge purges on every path" % edge_name, ok and bool(mine), b.loc(ve["switch"]),
                        "" if ok and mine else "after kill() returned %s there is a path to return without delete_components: %s" % (edge_name, b.fmt_path(wit)))
                 for bb, t in mine:
-                    ao = b.arg_origin(bb, dc_arg(facts, t))
-                    roots = b.roots(ao)
+                    ao = v.arg_origin(bb, dc_arg(facts, t))
+                    roots = v.roots(ao)
                     has_batch = any(r == batch or (r[0] == batch[0] and r[1] == batch[1]) for r in roots)
                     if edge_name == "Err":
-                        has_pos = b.depends_on_call(ao, kbb, ("as Err",))
+                        has_pos = v.depends_on_call(ao, kbb, ("as Err",))
                         ok2 = has_batch and has_pos
                         why = "" if ok2 else ("on the failing-batch path the purged slice must depend on both the batch and the failure position of the "
                                               "kill() error (roots: %s): purging the whole batch deletes components of live entities (#766), purging nothing "
